@@ -10,6 +10,7 @@ import (
 	"sync/atomic"
 
 	"github.com/gauss-project/aurorafs/pkg/boson"
+	"github.com/gauss-project/aurorafs/pkg/encryption"
 	"github.com/gauss-project/aurorafs/pkg/encryption/store"
 	"github.com/gauss-project/aurorafs/pkg/file"
 	"github.com/gauss-project/aurorafs/pkg/storage"
@@ -29,13 +30,15 @@ type joiner struct {
 	edgeChunks    map[string][]byte
 	allowSaveEdge bool
 
-	ctx     context.Context
-	getter  storage.Getter
-	getMode storage.ModeGet
+	ctx       context.Context
+	getter    storage.Getter
+	rawGetter storage.Getter // the store as given, without decryption
+	getMode   storage.ModeGet
 }
 
 // New creates a new Joiner. A Joiner provides Read, Seek and Size functionalities.
 func New(ctx context.Context, getter storage.Getter, getMode storage.ModeGet, address boson.Address) (file.Joiner, int64, error) {
+	rawGetter := getter
 	getter = store.New(getter)
 	// retrieve the root chunk to read the total data length the be retrieved
 	rootChunk, err := getter.Get(ctx, getMode, address)
@@ -52,6 +55,7 @@ func New(ctx context.Context, getter storage.Getter, getMode storage.ModeGet, ad
 		refLength: len(address.Bytes()),
 		ctx:       ctx,
 		getter:    getter,
+		rawGetter: rawGetter,
 		getMode:   getMode,
 		span:      span,
 		rootData:  chunkData[boson.SpanSize:],
@@ -243,6 +247,15 @@ func (j *joiner) Seek(offset int64, whence int) (int64, error) {
 
 }
 
+// chunkAddress returns the address under which the chunk of a reference is
+// stored: an encrypted reference is the chunk address followed by the key.
+func chunkAddress(ref boson.Address) boson.Address {
+	if b := ref.Bytes(); len(b) == encryption.ReferenceSize {
+		return boson.NewAddress(b[:boson.HashSize])
+	}
+	return ref
+}
+
 func (j *joiner) IterateChunkAddresses(fn boson.AddressIterFunc) error {
 	// report root address
 	err := fn(j.addr)
@@ -275,15 +288,18 @@ func (j *joiner) processChunkAddresses(ctx context.Context, fn boson.AddressIter
 	for cursor := 0; cursor < len(data); cursor += j.refLength {
 
 		address := boson.NewAddress(data[cursor : cursor+j.refLength])
+		// chunks are reported, listed and keyed by their address, not by the
+		// (possibly encrypted) reference that leads to them
+		chunkAddr := chunkAddress(address)
 
-		if err := fn(address); err != nil {
+		if err := fn(chunkAddr); err != nil {
 			return err
 		}
 
 		sec := subtrieSection(data, cursor, j.refLength, subTrieSize)
 		if sec <= boson.ChunkSize {
 			if j.allowSaveData {
-				j.dataChunks = append(j.dataChunks, address.Bytes())
+				j.dataChunks = append(j.dataChunks, chunkAddr.Bytes())
 			}
 			continue
 		}
@@ -303,7 +319,16 @@ func (j *joiner) processChunkAddresses(ctx context.Context, fn boson.AddressIter
 				subtrieSpan := int64(chunkToSpan(ch.Data()))
 
 				if j.allowSaveEdge && subtrieSpan > int64(len(chunkData)) {
-					j.edgeChunks[address.String()] = ch.Data()
+					stored := ch.Data()
+					if !chunkAddr.Equal(address) {
+						// keep the chunk as it is stored, not its decrypted payload
+						raw, err := j.rawGetter.Get(ectx, j.getMode, chunkAddr)
+						if err != nil {
+							return err
+						}
+						stored = raw.Data()
+					}
+					j.edgeChunks[chunkAddr.String()] = stored
 				}
 
 				return j.processChunkAddresses(ectx, fn, chunkData, subtrieSpan)
